@@ -95,3 +95,55 @@ Theorem C02_string_tokens_always_unquote : forall b,
   exists t, Unquote.unquote_bytes (Unquote.quote b) = Some t.
 Proof. exact UnquoteProofs.unquote_scanner_ok. Qed.
 Print Assumptions C02_string_tokens_always_unquote.
+
+(* ---------- datetime: the rule is exactly RFC 3339 date-time ----------
+   The specification [DateTime] (Text/FormatsSpec.v) is written from RFC 3339 section 5.6; proofs live in
+   Text/FormatsProofs.v. *)
+From JS Require Import Text.FormatsSpec.
+
+Theorem C02_datetime_ok_iff : forall s, datetime_ok s = true <-> DateTime s.
+Proof. exact datetime_ok_iff. Qed.
+Print Assumptions C02_datetime_ok_iff.
+
+(* the time-offset reader alone: Some offset (minutes east of UTC) exactly on the time-offset texts *)
+Theorem C02_zone_offset_iff : forall z off, zone_offset z = Some off <-> zone_spec z off.
+Proof. exact zone_offset_iff. Qed.
+Print Assumptions C02_zone_offset_iff.
+
+Theorem C02_datetime_ok_min_length : forall s, datetime_ok s = true -> (20 <= List.length s)%nat.
+Proof. exact datetime_ok_min_length. Qed.
+Print Assumptions C02_datetime_ok_min_length.
+
+Theorem C02_datetime_date_part : forall s, datetime_ok s = true -> date_ok (firstn 10 s) = true.
+Proof. exact datetime_date_part. Qed.
+Print Assumptions C02_datetime_date_part.
+
+(* non-vacuity *)
+Example C02_datetime_leap_second_utc :
+  datetime_ok (of_string "2016-12-31T23:59:60Z"%string) = true /\
+  datetime_ok (of_string "2016-12-31T15:59:60.7-08:00"%string) = true /\
+  datetime_ok (of_string "2017-01-01T08:59:60+09:00"%string) = true /\
+  datetime_ok (of_string "2016-12-31T23:59:60+01:00"%string) = false.
+Proof. exact datetime_leap_second_utc_examples. Qed.
+Example C02_datetime_plain : datetime_ok (of_string "2020-01-01T00:00:00Z"%string) = true /\
+                             datetime_ok (of_string "2020-01-01t00:00:00.123456789z"%string) = true /\
+                             datetime_ok (of_string "2020-01-01T23:59:59-00:00"%string) = true.
+Proof. vm_compute. repeat split; reflexivity. Qed.
+Example C02_datetime_second60_midday : datetime_ok (of_string "2020-01-01T00:00:60Z"%string) = false.
+Proof. vm_compute. reflexivity. Qed.
+Example C02_datetime_empty_fraction : datetime_ok (of_string "2020-01-01T00:00:00.Z"%string) = false.
+Proof. vm_compute. reflexivity. Qed.
+Example C02_datetime_offset24 : datetime_ok (of_string "2020-01-01T00:00:00+24:00"%string) = false.
+Proof. vm_compute. reflexivity. Qed.
+Example C02_datetime_not_leap : datetime_ok (of_string "2021-02-29T00:00:00Z"%string) = false.
+Proof. vm_compute. reflexivity. Qed.
+Example C02_datetime_trailing : datetime_ok (of_string "2020-01-01T00:00:00Zx"%string) = false /\
+                                datetime_ok (of_string "2020-01-01T00:00:00.123Z9"%string) = false.
+Proof. vm_compute. split; reflexivity. Qed.
+Example C02_datetime_no_zone : datetime_ok (of_string "2020-01-01T00:00:00"%string) = false /\
+                               datetime_ok (of_string "2020-01-01T00:00:00.5"%string) = false.
+Proof. vm_compute. split; reflexivity. Qed.
+Example C02_datetime_spec_witnesses : DateTime (of_string "2016-12-31T15:59:60.7-08:00"%string).
+Proof. exact DateTime_witnesses. Qed.
+Example C02_datetime_spec_refuses : ~ DateTime (of_string "2016-12-31T23:59:60+01:00"%string).
+Proof. exact (proj1 DateTime_refused). Qed.
